@@ -175,6 +175,10 @@ class C09(P.Property):
         knobs["blocker"] = None
         if knobs["stall"] is None and knobs["read_fault"] is None and knobs["kill_mid"] is None and rng.random() < 0.06:
             knobs["blocker"] = {"search": rng.randrange(len(steps)), "hold": rng.choice([5, 30, 70, 70])}
+        if rng.random() < 0.25:
+            knobs["mtime_gran"] = rng.choice([1, 2])  # coarse file time stamps
+        if rng.random() < 0.15:
+            knobs["reboot_clock"] = rng.choice([-3600.0, -5.0, -3 * 86400.0, 3600.0, 9 * 86400.0])  # the wall clock is stepped at the first server restart
         return {"property": "C09", "seed": seed, "knobs": knobs, "steps": steps}
 
     def enumerate(self, tier):
@@ -518,6 +522,10 @@ class C09(P.Property):
         host.obj = None  # the client process of that time is gone with its socket
         run.kill_server()
         await asyncio.sleep(0.2)
+        d = run.knobs.get("reboot_clock")
+        if d and out["restarts"] == 1:
+            run.wall_off += d  # the machine comes back with another idea of the time
+            run.sim.count("clock_step_back" if d < 0 else "clock_step_forward")
         run.boot_server()
         await asyncio.sleep(0.01)
         host.restart("client-r%d" % out["restarts"])
@@ -526,7 +534,7 @@ class C09(P.Property):
     def simplifications(self, plan):
         k = plan["knobs"]
         for key, val in (("skew", 1.0), ("bufsize", 8192), ("net", dict(lo=0.01, hi=0.01)), ("stall", None), ("restart_after_upload", False),
-                         ("recreate", [False] * 5), ("gaps", [0] * 5), ("cfg_index", 0), ("decoy", False), ("sse2_spare", 0), ("read_fault", None), ("blocker", None), ("real_restart", False), ("separate_hosts", False), ("kill_mid", None)):
+                         ("recreate", [False] * 5), ("gaps", [0] * 5), ("cfg_index", 0), ("decoy", False), ("sse2_spare", 0), ("read_fault", None), ("blocker", None), ("real_restart", False), ("separate_hosts", False), ("kill_mid", None), ("mtime_gran", None), ("reboot_clock", None)):
             if k.get(key) != val:
                 yield dict(plan, knobs=dict(k, **{key: val}))
         db = k["db"]
